@@ -427,3 +427,10 @@ def model_check(ctx):
         ctx.expect_ok(run_tlc('Sessions_MC', MC_CFG % (c + ('ok',)), ctx.workdir, name='sessions_%d' % j, timeout=7200))
     ctx.expect_violation(run_tlc('Sessions_MC', MC_CFG % neg, ctx.workdir, name='sessions_neg_' + neg[5], timeout=900,
                                  allow_error=True), what)
+    # vacuity guards: the model does reach finished undisturbed listings with items, disturbed listings with items and
+    # known process columns (each "never" statement must be violated)
+    c = pos[0]
+    for w_ in ('NeverCleanFinishedWithItems', 'NeverDisturbedWithItems', 'NeverKnownProcess'):
+        cfg = (MC_CFG % (c + ('ok',))).replace('INVARIANT CleanIsAtomic\nINVARIANT SelectionIsAtomic', 'INVARIANT ' + w_)
+        ctx.expect_violation(run_tlc('Sessions_MC', cfg, ctx.workdir, name='sessions_witness_' + w_, timeout=900, allow_error=True),
+                             'witness: ' + w_)
